@@ -379,6 +379,23 @@ WireCompatible(old, new) ==
         \A fv \in FieldVals(old, fi, EmptyEnv, 1) :
            FnValueOK(old, new, fi, [s |-> "struct", c |-> old[fi].name, f |-> fv])
 
+(* The wire cases of a pair, for the cross-check against really generated code: for every   *)
+(* old top-level combinator without template parameters and every old value, the bytes the   *)
+(* old schema writes (bare and boxed), for requests the number of zero bytes that stand for  *)
+(* appended field masks under the new schema, and the encodings of all old answers.          *)
+WireCases(old, new) ==
+  { [name |-> old[ci].name, fn |-> FALSE, bare |-> Enc1(old, ci, EmptyEnv, [f |-> fv]),
+     boxed |-> TagBytes(old[ci].tag) \o Enc1(old, ci, EmptyEnv, [f |-> fv]), pad |-> 0, res |-> {}]
+    : <<ci, fv>> \in UNION { {<<ci, fv>> : fv \in FieldVals(old, ci, EmptyEnv, 1)} : ci \in {ci \in CtorIdxs(old) : old[ci].targs = <<>>} } }
+  \cup
+  { LET v == [s |-> "struct", c |-> old[fi].name, f |-> fv]
+        b == EncReq(old, fi, v)
+        d == IF HasName(new, old[fi].name) /\ new[IdxOf(new, old[fi].name)].fn THEN DecReq(new, IdxOf(new, old[fi].name), b) ELSE Fail
+        eo == ReqEnv(old[fi], fv, 1, EmptyEnv)
+    IN [name |-> old[fi].name, fn |-> TRUE, bare |-> <<>>, boxed |-> b, pad |-> IF d.ok THEN 4 * d.eofs ELSE 0,
+        res |-> {EncTE(old, old[fi].res, eo, r) : r \in ValsTE(old, old[fi].res, eo)}]
+    : <<fi, fv>> \in UNION { {<<fi, fv>> : fv \in FieldVals(old, fi, EmptyEnv, 1)} : fi \in FnIdxs(old) } }
+
 (* number of (constructor, value) cases WireCompatible quantifies over *)
 NumValues(S) ==
   LET RECURSIVE Sum(_)
